@@ -45,20 +45,22 @@ CHECKS = {
     'C04': ('exhaustive enumeration of map pairs/triples and BFS group closure with the library compose, vs reference automorphism composition',
             'N=1: all 24^2 pairs and 24^3 triples; N=2: all 11520 maps x 10 generators on both sides, inverse of every map (two-sided, reference and '
             'library), neutrality, anti-homomorphism, operand immutability and aliasing; thorough: all 11520^2 ordered pairs; BFS closure of {identity} under '
-            'the library compose reproduces exactly the independently enumerated group; z2inv on every 2x2 and 4x4 binary matrix (singular ones must raise).',
+            'the library compose reproduces exactly the independently enumerated group; z2inv on every 2x2 and 4x4 binary matrix (singular ones must raise); '
+            'histories inverse -> in-place mutation -> inverse on one live map; N=3 maps by BFS; maps built by compile() (circuit / layer / gate level mutually inverse, lazily derived inverses).',
             'Associativity for N=2 triples follows from compose == reference composition on all pairs (thorough) / on generator pairs (quick).',
             '3/C04'),
     'C07': ('exhaustive enumeration of (tableau, observable), (pure tableau, tableau) and (tableau, bit string) pairs on the real code vs trace formulas on dense matrices',
             'All 34560 N=2 tableaux x the complete signed Pauli list and imaginary-phase Paulis; Paulis with all phases, monomials, four-term polynomials with '
             'repeated strings and unreduced products on every 8th tableau + one per density matrix (all in thorough); overlaps: pure receivers x one argument per '
-            'density matrix of every rank and all arguments x every pure state; get_prob on all bit strings (sum to one); receiver/argument snapshots; torch port.',
+            'density matrix of every rank and all arguments x every pure state; get_prob on all bit strings (sum to one); receiver/argument snapshots; N=3 tableaux of every rank; '
+            'live histories (query round -> each of 312 in-place operations -> query round on one object vs a fresh object) for both packages; torch port.',
             'expect(state) on a mixed receiver raises NotImplementedError = abstention; bounded to N<=2 (N=3 supplementary in thorough).',
             '3/C07'),
     'C12': ('exhaustive enumeration of maps (N<=2, all signs), of all ordered independent commuting signed stabilizer lists (N<=3) and of constructor coin strings on the real code vs explicit density matrices',
             'to_state / zero_state.transform_by / to_map round trip / to_state(r) for all 11520 maps; zero, one, GHZ, maximally mixed for N<=4 vs explicit '
             'matrices; random_bit_state over all coin strings, random_pauli_state over the coin tree; to_qutip of tableaux N<=2; stabilizer_state on every '
             'ordered independent commuting list of N<=3 with sign patterns in three input formats (projector onto the joint +1 eigenspace, r=N-L); every '
-            'anticommuting pair raises ValueError; torch port.',
+            'anticommuting pair raises ValueError (torch: also as non-neighbours); random_*_state(N, r) has the requested rank; to_qutip for N=3..5 of every rank; torch port.',
             'Dependent lists / non-Hermitian phases are out of scope; N=3 L=3 lists use 4 sign patterns (quick: a quarter of the lists).',
             '3/C12'),
     'C14': ('stateless exhaustive exploration of (program, input, coin string) triples of Circuit with mid-circuit measurement on the real code vs dense trajectory, direct measurement and layer-order invariant',
@@ -92,7 +94,8 @@ CHECKS = {
     'C11': ('complete enumeration of the finite gate tables x placements x the whole Pauli group / all tableaux vs textbook unitaries',
             'H,S,X,Y,Z and C(0..23) on every wire and CNOT on every ordered wire pair of N<=3 (4 thorough) applied to all 4*4^N operators and to all 34560 N=2 tableaux, '
             'compared with U P U^dag from dense matrices and with the literal sentences of the statement; the 24 indexed maps are valid, pairwise distinct, equal to the '
-            'independently enumerated 1-qubit group, closed under compose and inverse (24x24 table); bad indices and wrong qubit counts are rejected.',
+            'independently enumerated 1-qubit group, closed under compose and inverse (24x24 table); bad indices and wrong qubit counts are rejected; the same gates '
+            'inside circuits (plain / layer-compiled / compiled / copied) and as gate copies taken after backward or compile.',
             'Rejection is read as "any exception" (type recorded).',
             '3/C11'),
     'C13': ('differential exhaustive exploration: identical enumerated well-formed inputs through pyclifford and torchclifford, representations compared',
@@ -125,7 +128,8 @@ CHECKS = {
     'C18': ('exhaustive enumeration of operators x targets x modes, of all pure tableaux, and of commuting Hamiltonians on the real code vs reference rotation rule / dense matrices',
             'diagonalize: all non-identity strings x +- x every target qubit x causal on/off for N<=3 (5 thorough), Pauli and PauliMonomial: exact +-Z on the target, '
             'causal locality; kernels pauli_diagonalize1/2 on all strings / anticommuting pairs; all 11544 pure tableaux N<=2 (+N=3 BFS): forward gives |0..0>, backward '
-            're-encodes; SBRG on every ordered tuple of <=3 commuting strings N<=3: heff I/Z only, circ.forward(H) == heff as a matrix, spectra equal; arbitrary tuples: I/Z form; torch port.',
+            're-encodes, in six orders of first use (plain, backward-first, compile-first, copy-first, copy-then-compile, compile-then-copy); SBRG on every ordered tuple of <=3 commuting '
+            'strings N<=3: heff I/Z only, circ.forward(H) == heff as a matrix, spectra equal; arbitrary tuples: I/Z form; torch port.',
             'Mixed input to diagonalize is only observed (statement covers pure states).',
             '3/C18'),
     'C19': ('stateless exhaustive exploration of sampler and measurement coin strings for sample / density_matrix / ClassicalShadow on the real code vs dense matrices',
